@@ -870,7 +870,10 @@ LEVEL_TEXT = ("Machine-checked theorems (Coq 8.16, closed under the global conte
               "field name resolves to the field's argument, the canonical print of a value IS the rendering of a "
               "well-formed invocation whose occurrences are the printed groups, and whenever the command accepts that "
               "line, extraction from the matches of the real parse (parse_top, through C02_unparse, C02 conservation, "
-              "C07's fold and C06's default phase) returns the value.  The model is tied to clap_derive by compiling a corpus spanning the shape x kind x type x "
+              "C07's fold and C06's default phase) returns the value; extraction can fail after a successful command parse "
+              "exactly when the command does not declare the requiredness (witness: required = false on a plain field); and "
+              "for every well-formed invocation of the update command of a struct of argument fields, a field whose argument "
+              "has no default and no occurrence ON THE LINE keeps its value under try_update_from.  The model is tied to clap_derive by compiling a corpus spanning the shape x kind x type x "
               "attribute matrix with the real macro and comparing command dumps, parses, round trips, update sequences "
               "and value-enum lookups against the extracted model (which runs on top of the parser model) on every check; "
               "an independent python oracle checks the property's statements on the implementation's output.")
